@@ -315,12 +315,17 @@ def quantity_name(q):
     return None
 
 
-def build(s, _ctr=None):
-    """Real histogrammar object for a spec, through the public constructors."""
+def build(s, _ctr=None, refs=None):
+    """Real histogrammar object for a spec, through the public constructors.
+
+    ``refs`` maps names to already built objects; a node ``{"p": "ref", "name": N}`` is replaced by that very
+    object (used by C16 to install one aggregator at two positions)."""
     import histogrammar as hg
 
     if _ctr is None:
         _ctr = [0]
+    if s["p"] == "ref":
+        return refs[s["name"]]
     node = _ctr[0]
     _ctr[0] += 1
     p = s["p"]
@@ -332,7 +337,7 @@ def build(s, _ctr=None):
     kw = {}
     for name, c in child_slots(s):
         if ":" not in name:
-            kw[name] = build(c, _ctr)
+            kw[name] = build(c, _ctr, refs)
     if p in ("Sum", "Average", "Deviate", "Minimize", "Maximize"):
         return getattr(hg, p)(q)
     if p == "Bag":
@@ -354,10 +359,10 @@ def build(s, _ctr=None):
     if p == "Fraction":
         return hg.Fraction(q, **kw)
     if p in ("Label", "UntypedLabel"):
-        pairs = {k: build(c, _ctr) for k, c in s["pairs"].items()}
+        pairs = {k: build(c, _ctr, refs) for k, c in s["pairs"].items()}
         return getattr(hg, p)(**pairs)
     if p in ("Index", "Branch"):
-        vals = [build(c, _ctr) for c in s["values"]]
+        vals = [build(c, _ctr, refs) for c in s["values"]]
         return getattr(hg, p)(*vals)
     raise ValueError(p)
 
